@@ -333,7 +333,8 @@ def jobs(tier, seed):
         out.append(dict(base, op="getv", state="array", vdtype="float64", like=like))
     if not q:
         small = dict(n=2, modmax=2, nq=3)
-        out = [dict(o, **small) if (o.get("like") or o.get("vdtype") or o.get("inputs") or o.get("kdtype")) else o for o in out]
+        tiny = dict(n=2, modmax=2, nq=2)          # 8-bit keys: bit-vector remainders; three queries on top exceed the solver budget
+        out = [dict(o, **tiny) if (o.get("kdtype") in ("uint8", "int8") and not o.get("like")) else dict(o, **small) if (o.get("like") or o.get("vdtype") or o.get("inputs") or o.get("kdtype")) else o for o in out]
         for op in ("getv", "setv", "contains"):
             out.append(dict(small, op=op, state="array", vvec=(op == "setv")))
     return [dict(h="C11.table", p=p) for p in out]
